@@ -85,7 +85,7 @@ def generate(ctx):
         raise vcheck.Infra("cannot parse the TLC counterexample of ClusterAPIRepinMC_ascoded")
     eps.append(wit)
     workers = 2
-    num = 90 if ctx.quick() else 3000
+    num = 90 if ctx.quick() else 2000
     cfg = "ClusterAPIRepinSim.cfg" if ctx.quick() else "ClusterAPIRepinSim8.cfg"
     ctx.tlc("ClusterAPIRepinSim.tla", cfg, count=False, workers=workers, timeout=2400,
             simulate="file=c10beh,num=%d" % num, depth=3, seed=ctx.seed)
